@@ -152,6 +152,18 @@ func judge(r *ev.Report, e expr, layout []int, out string, want map[rune]oracle.
 			return
 		}
 	}
+	// a blank between two letters of the same leaf is part of the styled text too (an
+	// underline, strike-through or background shows on it)
+	for i := 0; i+2 < len(cells); i++ {
+		a, sp, b := cells[i], cells[i+1], cells[i+2]
+		if sp.R != ' ' || !((a.R == 'a' && b.R == 'b') || (a.R == 'c' && b.R == 'd')) {
+			continue
+		}
+		if w := want[a.R]; sp.Attr != w {
+			r.Violation("attrs-on-blank:"+stage, detail(fmt.Sprintf("the blank between %q and %q is shown with %s, applied styles give %s", a.R, b.R, sp.Attr, w)))
+			return
+		}
+	}
 	if len(layout) == 0 {
 		for _, l := range letters {
 			if seen[l] != 1 {
